@@ -13,6 +13,27 @@ from common import BUILD, Infra, Run, main_guard, parse_sx, sx, time_limit
 warnings.filterwarnings("ignore")
 
 
+class RetryDriver:
+    """the compiled Lean driver; restarted once if the pipe breaks (a loaded machine can kill the child)"""
+
+    def __init__(self, run):
+        self.run = run
+        self.d = run.driver()
+
+    def _retry(self, f):
+        try:
+            return f(self.d)
+        except (BrokenPipeError, Infra, OSError):
+            self.d = self.run.driver()
+            return f(self.d)
+
+    def ask(self, line):
+        return self._retry(lambda d: d.ask(line))
+
+    def ask_many(self, lines):
+        return self._retry(lambda d: d.ask_many(lines))
+
+
 def regen(run):
     import c05_gen
     import c06_gen
@@ -235,7 +256,7 @@ def main():
     ]
     regen(run)
     run.build_and_audit(["TdVerif.Props.C06"])
-    drv = run.driver()
+    drv = RetryDriver(run)
     import tensordict  # noqa: F401
     import tensordict.nn  # noqa: F401
     import c06_monitor as M
@@ -247,7 +268,7 @@ def main():
     try:
         thorough = run.tier == "thorough"
         scenarios(run, drv, scratch)
-        histories(run, drv, 6000 if thorough else 900, 34 if thorough else 28, scratch)
+        histories(run, drv, 6000 if thorough else 600, 34 if thorough else 28, scratch)
     finally:
         M.uninstall()
         shutil.rmtree(scratch, ignore_errors=True)
